@@ -286,3 +286,680 @@ Proof.
   intros H Hi. destruct (wfst_explicit st H) as (c&x0&x1&x2&n0&n1&n2&r0&r1&r2&r3&r4&r5&r6&r7&r8&r9&r10&r11&r12&r13&r14&e&k&->).
   do 15 (destruct i as [|i]; [reflexivity|]). lia.
 Qed.
+
+(* ------------------------------------------------------------------------------------ *)
+(* classification of the names of the write layouts                                      *)
+(* ------------------------------------------------------------------------------------ *)
+Definition hfn := header_field_names.
+
+(* the statistic names a version's header holds *)
+Definition cov (m : Z) : list string :=
+  map (axis_name "maxs") (seq 0 3) ++ map (axis_name "mins") (seq 0 3)
+  ++ map by_return_name (seq 0 (if m <? 4 then 5 else 15))
+  ++ ["point_count"%string] ++ (if m <? 4 then [] else ["start_of_first_evlr"%string; "number_of_evlrs"%string]).
+
+Definition mem (n : string) (l : list string) : bool := existsb (String.eqb n) l.
+
+Lemma mem_In n l : mem n l = true -> In n l.
+Proof. apply in_by_existsb. Qed.
+
+Lemma In_mem n l : In n l -> mem n l = true.
+Proof. intros H. unfold mem. apply existsb_exists. exists n. split; [exact H|apply String.eqb_refl]. Qed.
+
+Definition class_ok (m : Z) (n : string) : bool :=
+  String.eqb n "zero" || String.eqb n "signature" || (mem n (hfn m) && (negb (is_stat n) || mem n (cov m))).
+
+Lemma wnames_class_b m : 1 <= m <= 4 -> forallb (class_ok m) (wnames m) = true.
+Proof.
+  intros Hm. assert (m = 1 \/ m = 2 \/ m = 3 \/ m = 4) as [->|[->|[->| ->]]] by lia; vm_compute; reflexivity.
+Qed.
+
+Lemma wnames_class m n : 1 <= m <= 4 -> In n (wnames m) ->
+  (String.eqb n "zero" = true \/ String.eqb n "signature" = true)
+  \/ (In n (hfn m) /\ (is_stat n = false \/ In n (cov m))).
+Proof.
+  intros Hm Hin. pose proof (wnames_class_b m Hm) as H. rewrite forallb_forall in H.
+  specialize (H n Hin). unfold class_ok in H.
+  apply orb_true_iff in H as [H|H]; [left; now apply orb_true_iff in H|].
+  right. apply andb_true_iff in H as [H1 H2]. split; [now apply mem_In|].
+  apply orb_true_iff in H2 as [H2|H2]; [left; now apply negb_true_iff in H2|right; now apply mem_In].
+Qed.
+
+Lemma cov_hfn m n : 1 <= m <= 4 -> In n (cov m) -> In n (hfn m).
+Proof.
+  intros Hm Hin. apply mem_In.
+  assert (forallb (fun n => mem n (hfn m)) (cov m) = true) as H.
+  { assert (m = 1 \/ m = 2 \/ m = 3 \/ m = 4) as [->|[->|[->| ->]]] by lia; vm_compute; reflexivity. }
+  rewrite forallb_forall in H. now apply H.
+Qed.
+
+Lemma hfn_plain m n : 1 <= m <= 4 -> In n (hfn m) ->
+  String.eqb n "zero" = false /\ String.eqb n "signature" = false.
+Proof.
+  intros Hm Hin.
+  assert (forallb (fun n => negb (String.eqb n "zero") && negb (String.eqb n "signature")) (hfn m) = true) as H.
+  { assert (m = 1 \/ m = 2 \/ m = 3 \/ m = 4) as [->|[->|[->| ->]]] by lia; vm_compute; reflexivity. }
+  rewrite forallb_forall in H. specialize (H n Hin). apply andb_true_iff in H as [H1 H2].
+  split; now apply negb_true_iff.
+Qed.
+
+(* plain (non statistic) names every version holds *)
+Definition plain_core : list string :=
+  ["version.major"; "version.minor"; "offset_to_point_data"; "header_size"; "number_of_vlrs"; "point_format_id"; "point_size";
+   "scales[0]"; "scales[1]"; "scales[2]"; "offsets[0]"; "offsets[1]"; "offsets[2]"]%string.
+
+Lemma plain_core_ok m n : 1 <= m <= 4 -> In n plain_core -> In n (hfn m) /\ is_stat n = false.
+Proof.
+  intros Hm Hin.
+  assert (forallb (fun n => mem n (hfn m) && negb (is_stat n)) plain_core = true) as H.
+  { assert (m = 1 \/ m = 2 \/ m = 3 \/ m = 4) as [->|[->|[->| ->]]] by lia; vm_compute; reflexivity. }
+  rewrite forallb_forall in H. specialize (H n Hin). apply andb_true_iff in H as [H1 H2].
+  split; [now apply mem_In|now apply negb_true_iff].
+Qed.
+
+Lemma extra_names_not_stat : is_stat "extra_header_bytes" = false /\ is_stat "extra_vlr_bytes" = false.
+Proof. split; reflexivity. Qed.
+
+(* the covered names, spelled out *)
+Lemma cov_cases m n : 1 <= m <= 4 -> In n (cov m) ->
+  (exists i, (i < 3)%nat /\ n = axis_name "maxs" i) \/ (exists i, (i < 3)%nat /\ n = axis_name "mins" i)
+  \/ (exists i, (i < (if (m <? 4)%Z then 5 else 15))%nat /\ n = by_return_name i)
+  \/ n = "point_count"%string
+  \/ (m = 4 /\ (n = "start_of_first_evlr"%string \/ n = "number_of_evlrs"%string)).
+Proof.
+  intros Hm Hin. unfold cov in Hin.
+  apply in_app_or in Hin as [Hin|Hin].
+  { left. apply in_map_iff in Hin as (i & <- & Hi). apply in_seq in Hi. exists i. split; [lia|reflexivity]. }
+  apply in_app_or in Hin as [Hin|Hin].
+  { right; left. apply in_map_iff in Hin as (i & <- & Hi). apply in_seq in Hi. exists i. split; [lia|reflexivity]. }
+  apply in_app_or in Hin as [Hin|Hin].
+  { right; right; left. apply in_map_iff in Hin as (i & <- & Hi). apply in_seq in Hi. exists i. split; [lia|reflexivity]. }
+  apply in_app_or in Hin as [Hin|Hin].
+  { right; right; right; left. destruct Hin as [<-|[]]. reflexivity. }
+  right; right; right; right. destruct (m <? 4) eqn:E; [destruct Hin|].
+  split; [lia|]. destruct Hin as [<-|[<-|[]]]; [now left|now right].
+Qed.
+
+(* ------------------------------------------------------------------------------------ *)
+(* statistics that agree on what a version's header holds                                *)
+(* ------------------------------------------------------------------------------------ *)
+Definition sagree (m : Z) (s1 s2 : stats) : Prop :=
+  wfst s1 /\ wfst s2 /\ s_count s1 = s_count s2 /\ s_max s1 = s_max s2 /\ s_min s1 = s_min s2
+  /\ (forall i, (i < (if (m <? 4)%Z then 5 else 15))%nat -> nth i (s_ret s1) 0 = nth i (s_ret s2) 0)
+  /\ (m = 4 -> s_evlr_start s1 = s_evlr_start s2 /\ s_nevlr s1 = s_nevlr s2).
+
+Lemma sagree_refl m s : wfst s -> sagree m s s.
+Proof. intros H. repeat split; try apply H; reflexivity. Qed.
+
+Lemma sagree_sval m s1 s2 n : 1 <= m <= 4 -> sagree m s1 s2 -> In n (cov m) -> sval s1 n = sval s2 n.
+Proof.
+  intros Hm (W1 & W2 & Hc & Hx & Hn & Hr & He) Hin.
+  destruct (cov_cases m n Hm Hin) as [(i & Hi & ->)|[(i & Hi & ->)|[(i & Hi & ->)|[->|(-> & [->| ->])]]]].
+  - rewrite !sval_max by assumption. now rewrite Hx.
+  - rewrite !sval_min by assumption. now rewrite Hn.
+  - assert (i < 15)%nat by (destruct (m <? 4); lia). rewrite !sval_ret by assumption. now rewrite Hr.
+  - rewrite !sval_count by assumption. now rewrite Hc.
+  - rewrite !sval_start by assumption. now destruct (He eq_refl) as [-> _].
+  - rewrite !sval_nevlr by assumption. now destruct (He eq_refl) as [_ ->].
+Qed.
+
+Definition set_ev (st : stats) (e k : Z) : stats := mkS (s_count st) (s_max st) (s_min st) (s_ret st) e k.
+
+Lemma nth_grow_ret fmt recs r i : length r = 15%nat -> (i < 15)%nat ->
+  nth i (map (fun p => snd p + count_ret fmt recs (Z.of_nat (fst p) + 1)) (combine (seq 0 15) r)) 0
+  = nth i r 0 + count_ret fmt recs (Z.of_nat i + 1).
+Proof.
+  intros Hl Hi. do 15 (destruct r as [|? r]; [discriminate Hl|]). destruct r; [|discriminate Hl].
+  do 15 (destruct i as [|i]; [reflexivity|]). lia.
+Qed.
+
+Lemma wfst_grow ap fmt g st c : wfst st -> wfst (grow ap fmt g st c).
+Proof.
+  intros (H1 & H2 & H3). destruct c as [|r c]; [repeat split; assumption|].
+  unfold grow, wfst. cbn [s_max s_min s_ret]. rewrite !map_length, combine_length, seq_length, H3.
+  repeat split.
+Qed.
+
+Lemma sagree_grow ap m fmt g1 g2 s1 s2 c :
+  (forall i, aint g1 (axis_name "scales" i) = aint g2 (axis_name "scales" i)) ->
+  (forall i, aint g1 (axis_name "offsets" i) = aint g2 (axis_name "offsets" i)) ->
+  sagree m s1 s2 -> sagree m (grow ap fmt g1 s1 c) (grow ap fmt g2 s2 c).
+Proof.
+  intros Hs Ho Ha. rewrite (grow_ext ap fmt g1 g2 s1 c Hs Ho).
+  destruct Ha as (W1 & W2 & Hc & Hx & Hn & Hr & He).
+  split; [now apply wfst_grow|]. split; [now apply wfst_grow|].
+  destruct c as [|r c]; [cbn [grow]; repeat split; try assumption; now apply He|].
+  unfold grow. cbn [s_count s_max s_min s_ret s_evlr_start s_nevlr]. rewrite Hc, Hx, Hn.
+  split; [reflexivity|]. split; [reflexivity|]. split; [reflexivity|]. split; [|exact He].
+  intros i Hi. assert (i < 15)%nat by (destruct (m <? 4); lia).
+  destruct W1 as (_ & _ & L1). destruct W2 as (_ & _ & L2).
+  rewrite !nth_grow_ret by assumption. now rewrite Hr.
+Qed.
+
+Lemma sagree_reset m s1 s2 : sagree m s1 s2 -> sagree m (reset_extrema s1) (reset_extrema s2).
+Proof.
+  intros (W1 & W2 & Hc & Hx & Hn & Hr & He). unfold reset_extrema, sagree, wfst.
+  cbn [s_count s_max s_min s_ret s_evlr_start s_nevlr length].
+  destruct W1 as (_ & _ & L1). destruct W2 as (_ & _ & L2). repeat split; try assumption; now apply He.
+Qed.
+
+Lemma sagree_set_ev m s1 s2 e k : sagree m s1 s2 -> sagree m (set_ev s1 e k) (set_ev s2 e k).
+Proof.
+  intros (W1 & W2 & Hc & Hx & Hn & Hr & He). unfold set_ev, sagree, wfst.
+  cbn [s_count s_max s_min s_ret s_evlr_start s_nevlr]. repeat split; try assumption; try apply W1; apply W2.
+Qed.
+
+(* the appender's update of the statistics on one chunk *)
+Definition astep (ap : Z -> Z -> Z -> Z) (fmt : Z) (g : assoc) (st : stats) (c : list (list Z)) : stats :=
+  match c with
+  | [] => st
+  | _ => grow ap fmt g (if s_count st =? 0 then reset_extrema st else st) c
+  end.
+
+Lemma sagree_astep ap m fmt g1 g2 s1 s2 c :
+  (forall i, aint g1 (axis_name "scales" i) = aint g2 (axis_name "scales" i)) ->
+  (forall i, aint g1 (axis_name "offsets" i) = aint g2 (axis_name "offsets" i)) ->
+  sagree m s1 s2 -> sagree m (astep ap fmt g1 s1 c) (astep ap fmt g2 s2 c).
+Proof.
+  intros Hs Ho Ha. destruct c as [|r c]; [exact Ha|]. unfold astep.
+  assert (s_count s1 = s_count s2) as -> by apply Ha.
+  apply sagree_grow; try assumption. destruct (s_count s2 =? 0); [now apply sagree_reset|exact Ha].
+Qed.
+
+Lemma astep_set_ev ap fmt g st c e k : astep ap fmt g (set_ev st e k) c = set_ev (astep ap fmt g st c) e k.
+Proof.
+  destruct c as [|r c]; [reflexivity|]. unfold astep. cbn [set_ev s_count].
+  destruct (s_count st =? 0); reflexivity.
+Qed.
+
+Lemma astep_stats_of ap : ap_ok ap -> forall fmt h R c,
+  astep ap fmt h (stats_of ap fmt h R) c = stats_of ap fmt h (R ++ c).
+Proof.
+  intros Hap fmt h R c. destruct c as [|r c]; [now rewrite app_nil_r|]. unfold astep.
+  destruct R as [|r0 R]; [reflexivity|].
+  rewrite stats_of_count.
+  replace (len (r0 :: R) =? 0) with false by (pose proof (len_nonneg R); unfold len in *; cbn [length]; lia).
+  unfold stats_of. cbn [app]. change (r0 :: R ++ r :: c) with ((r0 :: R) ++ r :: c).
+  apply grow_app; try assumption; try discriminate; reflexivity.
+Qed.
+
+Lemma fold_astep ap : ap_ok ap -> forall fmt h Bs R,
+  fold_left (astep ap fmt h) Bs (stats_of ap fmt h R) = stats_of ap fmt h (R ++ concat Bs).
+Proof.
+  intros Hap fmt h. induction Bs as [|c Bs IH]; intros R; cbn [fold_left concat]; [now rewrite app_nil_r|].
+  rewrite (astep_stats_of ap Hap), IH, app_assoc. reflexivity.
+Qed.
+
+Lemma wfst_stats_of ap fmt h R : wfst (stats_of ap fmt h R).
+Proof.
+  destruct R as [|r R]; [repeat split|]. unfold stats_of. apply wfst_grow. repeat split.
+Qed.
+
+(* ------------------------------------------------------------------------------------ *)
+(* the header of a file: written in place over the opening header, then read back        *)
+(* ------------------------------------------------------------------------------------ *)
+Lemma cov_max m i : (i < 3)%nat -> In (axis_name "maxs" i) (cov m).
+Proof. intros Hi. unfold cov. apply in_or_app. left. apply in_map. apply in_seq. lia. Qed.
+Lemma cov_min m i : (i < 3)%nat -> In (axis_name "mins" i) (cov m).
+Proof. intros Hi. unfold cov. apply in_or_app. right. apply in_or_app. left. apply in_map. apply in_seq. lia. Qed.
+Lemma cov_ret m i : (i < (if (m <? 4)%Z then 5 else 15))%nat -> In (by_return_name i) (cov m).
+Proof.
+  intros Hi. unfold cov. apply in_or_app. right. apply in_or_app. right. apply in_or_app. left.
+  apply in_map. apply in_seq. lia.
+Qed.
+Lemma cov_count m : In "point_count"%string (cov m).
+Proof. unfold cov. apply in_or_app. right. apply in_or_app. right. apply in_or_app. right. now left. Qed.
+Lemma cov_start : In "start_of_first_evlr"%string (cov 4).
+Proof. apply mem_In. reflexivity. Qed.
+Lemma cov_nevlr : In "number_of_evlrs"%string (cov 4).
+Proof. apply mem_In. reflexivity. Qed.
+
+Lemma cov_is_stat m n : 1 <= m <= 4 -> In n (cov m) -> is_stat n = true.
+Proof.
+  intros Hm Hin.
+  assert (forallb is_stat (cov m) = true) as H.
+  { assert (m = 1 \/ m = 2 \/ m = 3 \/ m = 4) as [->|[->|[->| ->]]] by lia; vm_compute; reflexivity. }
+  rewrite forallb_forall in H. now apply H.
+Qed.
+
+Lemma wval_of_get a h n : String.eqb n "zero" = false -> String.eqb n "signature" = false ->
+  aget a n = Some (wval h n) -> wval a n = wval h n.
+Proof. intros Hz Hs Hg. unfold wval at 1. now rewrite Hz, Hs, Hg. Qed.
+
+Section ReadBack.
+  Variables (g : assoc) (vl : list vlr) (h0 : assoc) (b0 : list Z) (st : stats) (hR : assoc) (bR : list Z).
+  Hypothesis E0 : enc_header g vl false = Ok (h0, b0).
+  Hypothesis Wst : wfst st.
+  Hypothesis ER : enc_header (with_stats h0 st) vl true = Ok (hR, bR).
+  Let m := aint h0 "version.minor".
+
+  Lemma rb_minor_ws : aint (with_stats h0 st) "version.minor" = m.
+  Proof. apply aint_with_stats_none. now apply sval_none. Qed.
+
+  Lemma rb_range : 1 <= m <= 4.
+  Proof. destruct (header_size_exact _ _ _ _ _ ER) as (_ & H & _). now rewrite rb_minor_ws in H. Qed.
+
+  Lemma rb_g_version : aint g "version.minor" = m /\ aint g "version.major" = aint h0 "version.major".
+  Proof.
+    unfold m. split; symmetry; apply (enc_header_keeps _ _ _ _ _ _ E0); reflexivity.
+  Qed.
+
+  Lemma rb_aget n : aget hR n = aget (with_stats h0 st) n.
+  Proof.
+    destruct (enc_header_inv _ _ _ _ _ ER) as (vb & hs0 & fb & Hv & Hh & _ & _ & HhR & _ & _).
+    destruct (enc_header_inv _ _ _ _ _ E0) as (vb' & hs0' & fb' & Hv' & Hh' & _ & _ & Hh0 & _ & _).
+    rewrite Hv in Hv'. injection Hv' as <-.
+    rewrite rb_minor_ws in Hh.
+    rewrite (aint_with_stats_none h0 st "version.major") in Hh by (now apply sval_none).
+    destruct rb_g_version as [G1 G2]. rewrite G1, G2, Hh in Hh'. injection Hh' as <-.
+    rewrite !(abytes_with_stats_none h0 st) in HhR by (now apply sval_none).
+    assert (abytes h0 "extra_header_bytes" = abytes g "extra_header_bytes") as Be
+      by (rewrite Hh0; now rewrite !abytes_aset_other by reflexivity).
+    assert (abytes h0 "extra_vlr_bytes" = abytes g "extra_vlr_bytes") as Bv
+      by (rewrite Hh0; now rewrite !abytes_aset_other by reflexivity).
+    rewrite Be, Bv in HhR. rewrite HhR.
+    set (G := with_stats h0 st).
+    assert (forall k, is_stat k = false -> aget G k = aget h0 k) as HG.
+    { intros k Hk. unfold G. rewrite aget_with_stats. now rewrite sval_none. }
+    destruct (String.eqb "number_of_vlrs" n) eqn:E3.
+    { apply String.eqb_eq in E3. subst n. rewrite aget_aset_same. rewrite HG by reflexivity.
+      rewrite Hh0. now rewrite aget_aset_same. }
+    rewrite aget_aset_other by exact E3.
+    destruct (String.eqb "header_size" n) eqn:E2.
+    { apply String.eqb_eq in E2. subst n. rewrite aget_aset_same. rewrite HG by reflexivity.
+      rewrite Hh0. rewrite aget_aset_other by reflexivity. now rewrite aget_aset_same. }
+    rewrite aget_aset_other by exact E2.
+    destruct (String.eqb "offset_to_point_data" n) eqn:E1.
+    { apply String.eqb_eq in E1. subst n. rewrite aget_aset_same. rewrite HG by reflexivity.
+      rewrite Hh0. rewrite !aget_aset_other by reflexivity. now rewrite aget_aset_same. }
+    now rewrite aget_aset_other by exact E1.
+  Qed.
+
+  Lemma rb_wvalR n : wval hR n = wval (with_stats h0 st) n.
+  Proof. apply wval_aget, rb_aget. Qed.
+  Lemma rb_aintR n : aint hR n = aint (with_stats h0 st) n.
+  Proof. unfold aint. now rewrite rb_aget. Qed.
+  Lemma rb_abytesR n : abytes hR n = abytes (with_stats h0 st) n.
+  Proof. unfold abytes. now rewrite rb_aget. Qed.
+
+  Lemma rb_minorR : aint hR "version.minor" = m.
+  Proof. rewrite rb_aintR. apply rb_minor_ws. Qed.
+
+  Lemma rb_len : len bR = len b0.
+  Proof.
+    destruct (enc_header_same_size _ _ _ _ ER) as [_ L]. rewrite L, with_stats_offset.
+    symmetry. exact (enc_header_len _ _ _ _ _ E0).
+  Qed.
+
+  Lemma rb_count_max : s_count st <= max_point_count (aint h0 "version.major") m.
+  Proof.
+    destruct (enc_header_inv _ _ _ _ _ ER) as (vb & hs0 & fb & _ & _ & Hc & _).
+    rewrite rb_minor_ws in Hc.
+    rewrite (aint_with_stats_none h0 st "version.major") in Hc by (now apply sval_none).
+    now rewrite (aint_with_stats_some h0 st "point_count" _ (sval_count st Wst)) in Hc.
+  Qed.
+
+  (* a field list that holds what a reader recovers of hR *)
+  Variable hd : assoc.
+  Hypothesis Hget : forall n, In n (hfn m) -> aget hd n = Some (wval hR n).
+  Hypothesis Heh : abytes hd "extra_header_bytes" = abytes hR "extra_header_bytes".
+  Hypothesis Hev : abytes hd "extra_vlr_bytes" = abytes hR "extra_vlr_bytes".
+
+  Lemma rb_wval n : In n (hfn m) -> wval hd n = wval (with_stats h0 st) n.
+  Proof.
+    intros Hin. destruct (hfn_plain m n rb_range Hin) as [Hz Hs].
+    rewrite <- rb_wvalR. apply wval_of_get; auto.
+  Qed.
+
+  Lemma rb_aint n : In n (hfn m) -> aint hd n = aint (with_stats h0 st) n.
+  Proof.
+    intros Hin. destruct (hfn_plain m n rb_range Hin) as [Hz Hs].
+    rewrite !aint_wval by assumption. now rewrite rb_wval.
+  Qed.
+
+  Lemma rb_plain_wval n : In n (hfn m) -> is_stat n = false -> wval hd n = wval h0 n.
+  Proof. intros Hin Hn. rewrite rb_wval by exact Hin. apply wval_with_stats_none. now apply sval_none. Qed.
+
+  Lemma rb_plain_aint n : In n (hfn m) -> is_stat n = false -> aint hd n = aint h0 n.
+  Proof. intros Hin Hn. rewrite rb_aint by exact Hin. apply aint_with_stats_none. now apply sval_none. Qed.
+
+  Lemma rb_core n : In n plain_core -> aint hd n = aint h0 n /\ wval hd n = wval h0 n.
+  Proof.
+    intros Hin. destruct (plain_core_ok m n rb_range Hin) as [H1 H2].
+    split; [now apply rb_plain_aint|now apply rb_plain_wval].
+  Qed.
+
+  Lemma rb_bytes : abytes hd "extra_header_bytes" = abytes h0 "extra_header_bytes"
+                /\ abytes hd "extra_vlr_bytes" = abytes h0 "extra_vlr_bytes".
+  Proof.
+    rewrite Heh, Hev, !rb_abytesR. split; apply abytes_with_stats_none; now apply sval_none.
+  Qed.
+
+  Lemma rb_stat n z : In n (cov m) -> sval st n = Some z -> aint hd n = z.
+  Proof.
+    intros Hin Hs. rewrite rb_aint by (now apply cov_hfn; [apply rb_range|]).
+    now apply aint_with_stats_some.
+  Qed.
+
+  Lemma rb_minor_hd : aint hd "version.minor" = m.
+  Proof. apply rb_core. cbn. tauto. Qed.
+
+  Lemma rb_stats : sagree m (stats_of_header hd) st.
+  Proof.
+    split; [repeat split|]. split; [exact Wst|].
+    unfold stats_of_header. cbn [s_count s_max s_min s_ret s_evlr_start s_nevlr].
+    split; [apply rb_stat; [apply cov_count|now apply sval_count]|].
+    split.
+    { destruct Wst as (L & _ & _). destruct (s_max st) as [|x0 [|x1 [|x2 [|? ?]]]] eqn:E; try discriminate L.
+      rewrite map_seq3.
+      rewrite (rb_stat _ x0 (cov_max m 0 ltac:(lia))) by (rewrite sval_max by (auto; lia); now rewrite E).
+      rewrite (rb_stat _ x1 (cov_max m 1 ltac:(lia))) by (rewrite sval_max by (auto; lia); now rewrite E).
+      rewrite (rb_stat _ x2 (cov_max m 2 ltac:(lia))) by (rewrite sval_max by (auto; lia); now rewrite E).
+      reflexivity. }
+    split.
+    { destruct Wst as (_ & L & _). destruct (s_min st) as [|x0 [|x1 [|x2 [|? ?]]]] eqn:E; try discriminate L.
+      rewrite map_seq3.
+      rewrite (rb_stat _ x0 (cov_min m 0 ltac:(lia))) by (rewrite sval_min by (auto; lia); now rewrite E).
+      rewrite (rb_stat _ x1 (cov_min m 1 ltac:(lia))) by (rewrite sval_min by (auto; lia); now rewrite E).
+      rewrite (rb_stat _ x2 (cov_min m 2 ltac:(lia))) by (rewrite sval_min by (auto; lia); now rewrite E).
+      reflexivity. }
+    split.
+    { intros i Hi. assert (i < 15)%nat as Hi' by (destruct (m <? 4); lia).
+      assert (nth i (map (fun i0 : nat => aint hd (by_return_name i0)) (seq 0 15)) 0 = aint hd (by_return_name i)) as ->.
+      { clear Hi. do 15 (destruct i as [|i]; [reflexivity|]). lia. }
+      apply rb_stat; [now apply cov_ret|now apply sval_ret]. }
+    intros M4. fold m in M4. split.
+    - apply rb_stat; [rewrite M4; apply cov_start|now apply sval_start].
+    - apply rb_stat; [rewrite M4; apply cov_nevlr|now apply sval_nevlr].
+  Qed.
+End ReadBack.
+
+(* ------------------------------------------------------------------------------------ *)
+(* the one-shot file, taken apart                                                        *)
+(* ------------------------------------------------------------------------------------ *)
+Definition fstats (ap : Z -> Z -> Z -> Z) (fmt : Z) (h : assoc) (R : list (list Z)) (evl : list vlr) (off : Z) : stats :=
+  match evl with
+  | [] => stats_of ap fmt h R
+  | _ => set_ev (stats_of ap fmt h R) (off + len (concat R)) (len evl)
+  end.
+
+Lemma wfst_fstats ap fmt h R evl off : wfst (fstats ap fmt h R evl off).
+Proof. unfold fstats. destruct evl; [apply wfst_stats_of|]. apply (wfst_stats_of ap fmt h R). Qed.
+
+Lemma file_of_inv ap h vl fmt R evl f : file_of ap h vl fmt R evl = Ok f ->
+  exists h0 b0 eb hR bR,
+    enc_header (with_stats h stats0) vl false = Ok (h0, b0) /\ enc_vlrs true evl = Ok eb
+    /\ enc_header (with_stats h0 (fstats ap fmt h R evl (len b0))) vl true = Ok (hR, bR)
+    /\ f = bR ++ concat R ++ eb.
+Proof.
+  unfold file_of. intros H.
+  destruct (enc_header (with_stats h stats0) vl false) as [[h0 b0]|e] eqn:E0; [|discriminate].
+  cbn [bind fst snd] in H.
+  destruct (enc_vlrs true evl) as [eb|e] eqn:Eeb; [|discriminate]. cbn [bind] in H.
+  match type of H with bind ?e _ = _ => destruct e as [[hR bR]|e'] eqn:ER; [|discriminate] end.
+  cbn [bind fst snd] in H. injection H as <-.
+  exists h0, b0, eb, hR, bR. repeat split. unfold fstats, set_ev. destruct evl; exact ER.
+Qed.
+
+Lemma final_hdr_inv ap h vl fmt R evl h' : final_hdr ap h vl fmt R evl = Ok h' ->
+  exists h0 b0 eb bR,
+    enc_header (with_stats h stats0) vl false = Ok (h0, b0) /\ enc_vlrs true evl = Ok eb
+    /\ enc_header (with_stats h0 (fstats ap fmt h R evl (len b0))) vl true = Ok (h', bR).
+Proof.
+  unfold final_hdr. intros H.
+  destruct (enc_header (with_stats h stats0) vl false) as [[h0 b0]|e] eqn:E0; [|discriminate].
+  cbn [bind fst snd] in H.
+  destruct (enc_vlrs true evl) as [eb|e] eqn:Eeb; [|discriminate]. cbn [bind] in H.
+  match type of H with bind ?e _ = _ => destruct e as [[hR bR]|e'] eqn:ER; [|discriminate] end.
+  cbn [bind fst snd] in H. injection H as <-.
+  exists h0, b0, eb, bR. repeat split. unfold fstats, set_ev. destruct evl; exact ER.
+Qed.
+
+Lemma file_of_intro ap h vl fmt R evl h0 b0 eb hR bR :
+  enc_header (with_stats h stats0) vl false = Ok (h0, b0) -> enc_vlrs true evl = Ok eb ->
+  enc_header (with_stats h0 (fstats ap fmt h R evl (len b0))) vl true = Ok (hR, bR) ->
+  file_of ap h vl fmt R evl = Ok (bR ++ concat R ++ eb).
+Proof.
+  intros E0 Eeb ER. unfold file_of. rewrite E0. cbn [bind fst snd]. rewrite Eeb. cbn [bind].
+  unfold fstats, set_ev in ER. destruct evl; rewrite ER; reflexivity.
+Qed.
+
+(* everything known of a well-formed file *)
+Lemma file_facts ap h vl fmt R evl f : wf_las ap h vl fmt R evl -> file_of ap h vl fmt R evl = Ok f ->
+  exists h0 b0 eb hR bR,
+    enc_header (with_stats h stats0) vl false = Ok (h0, b0) /\ enc_vlrs true evl = Ok eb
+    /\ enc_header (with_stats h0 (fstats ap fmt h R evl (len b0))) vl true = Ok (hR, bR)
+    /\ f = bR ++ concat R ++ eb
+    /\ wf_header hR vl = true /\ forallb (wf_vlr true) evl = true
+    /\ recs_ok (aint hR "point_size") R = true /\ 0 < aint hR "point_size"
+    /\ (evl = [] \/ aint h "version.minor" >= 4) /\ len evl <= MAX_VLRS
+    /\ compressed_id_to_uncompressed (aint h "point_format_id") = fmt.
+Proof.
+  intros (h' & Hf & W1 & W2 & W3 & W4 & W5 & W6 & W7) Hfile.
+  destruct (file_of_inv _ _ _ _ _ _ _ Hfile) as (h0 & b0 & eb & hR & bR & E0 & Eeb & ER & ->).
+  destruct (final_hdr_inv _ _ _ _ _ _ _ Hf) as (h0' & b0' & eb' & bR' & E0' & _ & ER').
+  rewrite E0 in E0'. injection E0' as <- <-. rewrite ER in ER'. injection ER' as <- <-.
+  exists h0, b0, eb, hR, bR. repeat split; assumption.
+Qed.
+
+(* ------------------------------------------------------------------------------------ *)
+(* bytes                                                                                 *)
+(* ------------------------------------------------------------------------------------ *)
+Lemma write_at_mid : forall P T bs, write_at (P ++ T) (len P) bs = P ++ bs ++ skipn (length bs) T.
+Proof.
+  intros P T bs. unfold write_at, len. rewrite Nat2Z.id.
+  rewrite firstn_app_exact by reflexivity.
+  replace (length P - length (P ++ T))%nat with 0%nat by (rewrite app_length; lia).
+  cbn [zeros repeat app]. rewrite skipn_add. rewrite skipn_app_exact by reflexivity. reflexivity.
+Qed.
+
+Lemma len_concat_recs ps R : recs_ok ps R = true -> len (concat R) = len R * ps.
+Proof.
+  induction R as [|r R IH]; intros H; [reflexivity|].
+  cbn [recs_ok forallb] in H. apply andb_true_iff in H as [Hr HR]. apply andb_true_iff in Hr as [Hl _].
+  cbn [concat]. rewrite len_app, (IH HR). unfold len in *. cbn [length]. lia.
+Qed.
+
+Lemma chunks_of_concat ps R : (0 < ps)%nat -> Forall (fun r => length r = ps) R ->
+  forall fuel, (length R <= fuel)%nat -> chunks_of fuel ps (concat R) = R.
+Proof.
+  intros Hps HF. induction HF as [|r R Hr HF IH]; intros fuel Hfuel.
+  - destruct fuel; reflexivity.
+  - destruct fuel as [|fuel]; [cbn [length] in Hfuel; lia|]. cbn [concat chunks_of length].
+    destruct (r ++ concat R) as [|x xs] eqn:E.
+    { destruct r; [cbn [length] in Hr; lia|discriminate E]. }
+    rewrite <- E. rewrite firstn_app_exact by exact Hr. rewrite skipn_app_exact by exact Hr.
+    f_equal. apply IH. cbn [length] in Hfuel. lia.
+Qed.
+
+Lemma recs_ok_Forall ps R : recs_ok ps R = true -> Forall (fun r => length r = Z.to_nat ps) R.
+Proof.
+  intros H. apply Forall_forall. intros r Hin. unfold recs_ok in H. rewrite forallb_forall in H.
+  specialize (H r Hin). apply andb_true_iff in H as [H _]. unfold len in H. lia.
+Qed.
+
+(* ------------------------------------------------------------------------------------ *)
+(* the opening header against the caller's field list                                    *)
+(* ------------------------------------------------------------------------------------ *)
+Lemma wfst_stats0 : wfst stats0.
+Proof. repeat split. Qed.
+
+Lemma open_plain h vl h0 b0 n : enc_header (with_stats h stats0) vl false = Ok (h0, b0) ->
+  is_stat n = false -> derived n = false -> aget h0 n = aget h n.
+Proof.
+  intros E0 Hs Hd.
+  destruct (enc_header_inv _ _ _ _ _ E0) as (vb & hs0 & fb & _ & _ & _ & _ & -> & _ & _).
+  unfold derived in Hd. apply orb_false_iff in Hd as [Hd H3]. apply orb_false_iff in Hd as [H1 H2].
+  rewrite !aget_aset_other by assumption. rewrite aget_with_stats.
+  now rewrite (sval_none stats0 n wfst_stats0 Hs).
+Qed.
+
+Lemma open_plain_aint h vl h0 b0 n : enc_header (with_stats h stats0) vl false = Ok (h0, b0) ->
+  is_stat n = false -> derived n = false -> aint h0 n = aint h n.
+Proof. intros E0 Hs Hd. unfold aint. now rewrite (open_plain _ _ _ _ _ E0 Hs Hd). Qed.
+
+Lemma open_plain_abytes h vl h0 b0 n : enc_header (with_stats h stats0) vl false = Ok (h0, b0) ->
+  is_stat n = false -> derived n = false -> abytes h0 n = abytes h n.
+Proof. intros E0 Hs Hd. unfold abytes. now rewrite (open_plain _ _ _ _ _ E0 Hs Hd). Qed.
+
+Lemma s_nevlr_stats_of ap fmt h R : s_nevlr (stats_of ap fmt h R) = 0 /\ s_evlr_start (stats_of ap fmt h R) = 0.
+Proof. destruct R; split; reflexivity. Qed.
+
+Lemma fstats_count ap fmt h R evl off : s_count (fstats ap fmt h R evl off) = len R.
+Proof. unfold fstats. destruct evl; cbn [set_ev s_count]; apply stats_of_count. Qed.
+
+(* ------------------------------------------------------------------------------------ *)
+(* opening a well-formed file for appending                                              *)
+(* ------------------------------------------------------------------------------------ *)
+Lemma list_cases {A} (l : list A) : l = [] \/ exists e es, l = e :: es.
+Proof. destruct l as [|e es]; [now left|right; eauto]. Qed.
+
+Definition reads (m : Z) (hd hR : assoc) : Prop :=
+  (forall n, In n (hfn m) -> aget hd n = Some (wval hR n))
+  /\ abytes hd "extra_header_bytes" = abytes hR "extra_header_bytes"
+  /\ abytes hd "extra_vlr_bytes" = abytes hR "extra_vlr_bytes".
+
+Section OneFile.
+  Variable ap : Z -> Z -> Z -> Z.
+  Variables (h : assoc) (vl : list vlr) (fmt : Z) (A : list (list Z)) (evl : list vlr).
+  Variables (h0 : assoc) (b0 eb : list Z) (hA : assoc) (bA : list Z).
+  Hypothesis E0 : enc_header (with_stats h stats0) vl false = Ok (h0, b0).
+  Hypothesis Eeb : enc_vlrs true evl = Ok eb.
+  Hypothesis EA : enc_header (with_stats h0 (fstats ap fmt h A evl (len b0))) vl true = Ok (hA, bA).
+  Hypothesis WfA : wf_header hA vl = true.
+  Hypothesis Wevl : forallb (wf_vlr true) evl = true.
+  Hypothesis WrA : recs_ok (aint hA "point_size") A = true.
+  Hypothesis Wps : 0 < aint hA "point_size".
+  Hypothesis Wev4 : evl = [] \/ aint h "version.minor" >= 4.
+  Hypothesis Wfmt : compressed_id_to_uncompressed (aint h "point_format_id") = fmt.
+  Let m := aint h0 "version.minor".
+  Let stA := fstats ap fmt h A evl (len b0).
+  Let f0 := bA ++ concat A ++ eb.
+
+  Lemma of_WstA : wfst stA.
+  Proof. apply wfst_fstats. Qed.
+
+  Lemma of_range : 1 <= m <= 4.
+  Proof. exact (rb_range _ _ _ _ _ of_WstA EA). Qed.
+
+  Lemma of_minor_h : aint h "version.minor" = m.
+  Proof. symmetry. apply (open_plain_aint _ _ _ _ _ E0); reflexivity. Qed.
+
+  Lemma of_evl_m4 : evl <> [] -> m = 4.
+  Proof.
+    intros Hne. pose proof of_range. destruct Wev4 as [->|H4]; [contradiction|]. rewrite of_minor_h in H4. lia.
+  Qed.
+
+  Lemma of_fmt : compressed_id_to_uncompressed (aint hA "point_format_id") = fmt.
+  Proof.
+    rewrite (rb_aintR _ _ _ _ _ _ _ E0 of_WstA EA).
+    rewrite aint_with_stats_none by (apply sval_none; [apply of_WstA|reflexivity]).
+    rewrite (open_plain_aint _ _ _ _ _ E0) by reflexivity. exact Wfmt.
+  Qed.
+
+  Lemma of_lenA : len (concat A) = len A * aint hA "point_size".
+  Proof. now apply len_concat_recs. Qed.
+
+  Lemma of_dec : exists rh, dec_header f0 false = Ok rh
+    /\ rh_vlrs rh = vl /\ rh_offset rh = len bA /\ rh_psize rh = aint hA "point_size" /\ rh_fmt rh = fmt
+    /\ reads m (rh_fields rh) hA.
+  Proof.
+    destruct (dec_enc_header _ _ _ _ _ (concat A ++ eb) EA WfA) as (rh & Hd & R1 & R2 & R3 & R4 & R5 & R6 & R7).
+    exists rh. rewrite (rb_minorR _ _ _ _ _ _ _ E0 of_WstA EA) in R5.
+    rewrite of_fmt in R4. repeat split; assumption.
+  Qed.
+
+  Lemma of_aopen : exists s0, aopen f0 = Ok s0
+    /\ a_file s0 = f0 /\ a_pos s0 = len (bA ++ concat A) /\ a_vlrs s0 = vl /\ a_fmt s0 = fmt
+    /\ a_evlrs s0 = match evl with [] => None | _ => Some evl end
+    /\ a_st s0 = stats_of_header (a_h s0) /\ reads m (a_h s0) hA.
+  Proof.
+    destruct of_dec as (rh & Hd & R1 & R2 & R3 & R4 & Hr). pose proof Hr as (Hget & Heh & Hev).
+    pose proof (rb_stats _ _ _ _ _ _ _ E0 of_WstA EA _ Hget) as Hag. fold m stA in Hag.
+    pose proof (rb_minor_hd _ _ _ _ _ _ _ E0 of_WstA EA _ Hget) as Hmin. fold m in Hmin.
+    pose proof of_range as Hm.
+    unfold aopen. rewrite Hd. cbn [bind]. cbv zeta.
+    set (hd := rh_fields rh) in *. set (stH := stats_of_header hd) in *.
+    destruct Hag as (_ & _ & Hc & _ & _ & _ & He).
+    assert (s_count stH = len A) as HcA by (rewrite Hc; apply fstats_count).
+    assert (s_count stH * rh_psize rh + rh_offset rh = len (bA ++ concat A)) as Hpos
+      by (rewrite HcA, R2, R3, len_app, of_lenA; lia).
+    rewrite Hpos, Hmin.
+    destruct (list_cases evl) as [Eevl|(e & es & Eevl)].
+    - assert ((m >=? 4) && (s_nevlr stH >? 0) = false) as ->.
+      { destruct (m >=? 4) eqn:E4; [|reflexivity]. assert (m = 4) as M4 by lia.
+        destruct (He M4) as [_ Hn]. rewrite Hn. unfold stA, fstats. rewrite Eevl.
+        destruct (s_nevlr_stats_of ap fmt h A) as [-> _]. reflexivity. }
+      eexists. split; [reflexivity|]. cbn [a_file a_pos a_vlrs a_fmt a_evlrs a_st a_h]. rewrite Eevl.
+      repeat split; assumption.
+    - assert (m = 4) as M4 by (apply of_evl_m4; rewrite Eevl; discriminate).
+      destruct (He M4) as [Hs Hn]. unfold stA, fstats in Hs, Hn. rewrite Eevl in Hs, Hn.
+      cbn [set_ev s_evlr_start s_nevlr] in Hs, Hn. rewrite <- Eevl in Hn.
+      rewrite Hs, Hn. rewrite M4.
+      pose proof (len_nonneg es) as Hes.
+      assert (len evl = 1 + len es) as Hl by (rewrite Eevl; unfold len; cbn [length]; lia).
+      replace ((4 >=? 4) && (len evl >? 0)) with true by lia.
+      rewrite <- (rb_len _ _ _ _ _ _ _ E0 EA), <- len_app.
+      replace (len (bA ++ concat A) >? len (bA ++ concat A)) with false by lia.
+      rewrite !to_nat_len. unfold f0. rewrite app_assoc, skipn_app_exact by reflexivity.
+      rewrite <- (app_nil_r eb). rewrite (dec_enc_vlrs true evl eb [] Wevl Eeb). cbn [bind fst].
+      eexists. split; [reflexivity|]. cbn [a_file a_pos a_vlrs a_fmt a_evlrs a_st a_h].
+      rewrite app_nil_r, <- app_assoc. rewrite M4 in Hr.
+      refine (conj eq_refl (conj eq_refl (conj R1 (conj R4 (conj _ (conj eq_refl Hr)))))). rewrite Eevl. reflexivity.
+  Qed.
+End OneFile.
+
+(* ------------------------------------------------------------------------------------ *)
+(* appending chunks                                                                      *)
+(* ------------------------------------------------------------------------------------ *)
+Lemma astep_count ap fmt g st c : s_count (astep ap fmt g st c) = s_count st + len c.
+Proof.
+  destruct c as [|r c]; [cbn [astep]; change (len (@nil (list Z))) with 0; lia|].
+  unfold astep, grow. cbn [s_count]. destruct (s_count st =? 0); reflexivity.
+Qed.
+
+Lemma apoints_step ap s c P T :
+  a_file s = P ++ T -> a_pos s = len P ->
+  s_count (a_st s) + len c <= max_point_count (aint (a_h s) "version.major") (aint (a_h s) "version.minor") ->
+  let s' := fst (apoints ap s c true) in
+  a_h s' = a_h s /\ a_vlrs s' = a_vlrs s /\ a_fmt s' = a_fmt s /\ a_psize s' = a_psize s /\ a_evlrs s' = a_evlrs s
+  /\ a_file s' = (P ++ concat c) ++ skipn (length (concat c)) T /\ a_pos s' = len (P ++ concat c)
+  /\ a_st s' = astep ap (a_fmt s) (a_h s) (a_st s) c.
+Proof.
+  intros Hf Hp Hc. destruct c as [|r c].
+  - cbn [apoints fst concat astep skipn length]. rewrite app_nil_r. repeat split; assumption.
+  - unfold apoints. cbn [negb].
+    match goal with |- context [if ?b then (s, Err ELaspy) else _] => destruct b eqn:E end; [lia|].
+    cbn [fst a_h a_vlrs a_fmt a_psize a_evlrs a_file a_pos a_st].
+    rewrite Hf, Hp, write_at_mid, len_app, <- app_assoc. repeat split.
+Qed.
+
+Lemma afold ap m fmt h : forall Bs s P T st,
+  a_file s = P ++ T -> a_pos s = len P -> a_fmt s = fmt ->
+  (forall i, aint (a_h s) (axis_name "scales" i) = aint h (axis_name "scales" i)) ->
+  (forall i, aint (a_h s) (axis_name "offsets" i) = aint h (axis_name "offsets" i)) ->
+  sagree m (a_st s) st ->
+  s_count st + len (concat Bs) <= max_point_count (aint (a_h s) "version.major") (aint (a_h s) "version.minor") ->
+  let s' := fold_left (fun s c => fst (apoints ap s c true)) Bs s in
+  a_h s' = a_h s /\ a_vlrs s' = a_vlrs s /\ a_evlrs s' = a_evlrs s
+  /\ a_file s' = (P ++ concat (concat Bs)) ++ skipn (length (concat (concat Bs))) T
+  /\ a_pos s' = len (P ++ concat (concat Bs))
+  /\ sagree m (a_st s') (fold_left (astep ap fmt h) Bs st).
+Proof.
+  induction Bs as [|c Bs IH]; intros s P T st Hf Hp Hfmt Hs Ho Hag Hc.
+  - cbn [fold_left concat skipn length]. rewrite app_nil_r.
+    repeat (split; [first [assumption|reflexivity]|]). assumption.
+  - cbn [fold_left]. cbn [concat] in Hc. rewrite len_app in Hc.
+    pose proof (len_nonneg (concat Bs)) as Hn1. pose proof (len_nonneg c) as Hn2.
+    assert (s_count (a_st s) = s_count st) as Hcnt by apply Hag.
+    destruct (apoints_step ap s c P T Hf Hp ltac:(lia)) as (A1 & A2 & A3 & A4 & A5 & A6 & A7 & A8).
+    set (s1 := fst (apoints ap s c true)) in *.
+    assert (sagree m (a_st s1) (astep ap fmt h st c)) as Hag1.
+    { rewrite A8, Hfmt. now apply sagree_astep. }
+    destruct (IH s1 (P ++ concat c) (skipn (length (concat c)) T) (astep ap fmt h st c) A6 A7
+                 ltac:(now rewrite A3) ltac:(now rewrite A1) ltac:(now rewrite A1) Hag1
+                 ltac:(rewrite A1, astep_count; lia)) as (B1 & B2 & B3 & B4 & B5 & B6).
+    cbv zeta. rewrite B1, B2, B3, B4, B5, A1, A2, A5.
+    cbn [concat]. rewrite concat_app, app_length, skipn_add, <- !app_assoc.
+    repeat (split; [first [assumption|reflexivity]|]). exact B6.
+Qed.
